@@ -1,5 +1,5 @@
-\* block level: one contract, one slot, values {0,1}, one class, 2 transactions (one L1 handler), <= 3 blocks, <= 2 diff entries, <= 1 tx
-\* measured: 26 842 distinct states, ~15 s on 4 workers
+\* block level: one contract, one slot, values {0,1}, one class, 3 transactions (one L1 handler), <= 3 blocks, <= 2 diff entries, <= 1 tx
+\* measured: 20 684 distinct states, 62 049 generated
 CONSTANTS
   Users = {"c1"}
   Sys = {}
@@ -7,7 +7,7 @@ CONSTANTS
   MaxV = 1
   Cairo0 = {"k0"}
   Sierra = {}
-  TxIds = {"t1", "l1a"}
+  TxIds = {"t1", "t2", "l1a"}
   L1Txs = {"l1a"}
   MaxBlocks = 3
   MaxOps = 2
